@@ -28,13 +28,13 @@ def model_allowed(ctx, sc):
     if not fail:
         return {"success"}
     out = set()
-    codes = {"raise": [1, 7], "exit": [2]}
+    codes = {"raise": [1, 7], "exit": [2], "exit-locked": [2], "sigterm": [2], "sysexit": [3]}
     kinds = [sc["kinds"][i % len(sc["kinds"])] for i in fail]
     for first, kind in zip(fail, kinds):
         completed = [codes[kind]] + [[0]] * (sc["tasks"] - 1)
         r = ctx.model.call(1400, completed)
         out.add({0: "success", 1: "ValueError", 2: "RuntimeError"}[r[0]])
-    if "exit" in kinds:
+    if {"exit", "exit-locked", "sigterm"} & set(kinds):
         out.add("RuntimeError")  # a dead worker breaks the pool for every pending future
     return out
 
@@ -91,12 +91,16 @@ def part_a(ctx):
             fail = [tasks // 2]
         else:
             fail = r.sample(range(tasks), min(nfail, tasks))
-        kinds = r.choice([["raise"], ["exit"], ["raise", "exit"]])
+        kinds = r.choice([["raise"], ["exit"], ["raise", "exit"], ["exit-locked"], ["sigterm"], ["sysexit"], ["raise", "sysexit"], ["exit-locked", "raise"]])
         scs.append(dict(tasks=tasks, workers=workers, fail=fail, kinds=kinds, as_completed=r.random() < 0.3,
                         delays=[r.choice([0, 0, 0.005, 0.02, 0.05]) for _ in range(tasks)]))
     # run in batches, each in its own process, with a wall-clock bound per scenario
     batch = 6
+    hangs = 0
     for b0 in range(0, len(scs), batch):
+        if hangs >= 3:
+            ctx.note("three scenarios hung: the remaining pool scenarios were not run")
+            break
         chunk = scs[b0 : b0 + batch]
         f = os.path.join(ctx.work, f"c14_{b0}.json")
         json.dump(chunk, open(f, "w"))
@@ -110,13 +114,14 @@ def part_a(ctx):
                 if hung is not None and k > hung:
                     continue  # not run: an earlier scenario of this batch hung
                 if hung is not None and k == hung:
+                    hangs += 1
                     ctx.fail(doc, dict(seconds=round(time.time() - t0, 1)), "the driving command did not terminate within the time bound (hang)")
                 elif hung is None:
                     ctx.fail(doc, dict(stderr=stderr_tail), "scenario runner died")
                 continue
             res = lines[k]["result"]
             allowed = model_allowed(ctx, sc)
-            if sc["fail"] and res == "success":
+            if sc["fail"] and (res == "success" or res.startswith("SystemExit(0")):
                 ctx.fail(doc, dict(result=res), "a worker task failed but the driving command reported success")
             elif lines[k]["seconds"] > HANG_S:
                 ctx.fail(doc, dict(seconds=lines[k]["seconds"]), "the driving command exceeded the time bound")
@@ -152,13 +157,17 @@ def part_b(ctx):
     for what, src, marker, idxs in plan:
         for w in (0, 1, 2, 4):
             for idx in idxs:
-                for kind in ("raise", "exit"):
-                    if w == 0 and kind == "exit":
-                        continue
+                for kind in ("raise", "exit", "exit-locked", "sigterm", "sysexit"):
+                    if w == 0 and kind != "raise":
+                        continue  # no worker process: the task runs in the driving process itself
                     combos.append((what, src, marker, w, idx, kind))
     if ctx.quick:
-        combos = r.sample(combos, 24)
+        combos = r.sample(combos, 30)
+    hangs = 0
     for what, src, marker, w, idx, kind in combos:
+        if hangs >= 3:
+            ctx.note("three pipeline scenarios hung: the remaining ones were not run")
+            break
         out = os.path.join(d, "out")
         shutil.rmtree(out, ignore_errors=True)
         doc = dict(part="pipeline", command=what, worker_processes=w, faulty_task=idx, kind=kind)
@@ -170,7 +179,7 @@ def part_b(ctx):
             os.remove(mark)
         try:
             p = subprocess.run([PY, drv, what, str(w), src, out], env=dict(ENV, VERIF_FAULT=f"{what}:{idx}:{kind}", VERIF_FAULT_MARK=mark), capture_output=True, text=True, timeout=HANG_S * 2)
-            ok = "DRIVER-SUCCESS" in p.stdout
+            ok = "DRIVER-SUCCESS" in p.stdout or p.returncode == 0
             hang = False
         except subprocess.TimeoutExpired:
             ok, hang = False, True
@@ -183,6 +192,7 @@ def part_b(ctx):
                 ctx.fail(doc, dict(stderr=p.stderr[-300:]), f"{what} failed although no fault was injected (task index does not exist)")
             continue
         if hang:
+            hangs += 1
             ctx.fail(doc, dict(seconds=round(time.time() - t, 1)), f"{what} with a failing worker task did not terminate within the time bound")
         elif ok and fin:
             ctx.fail(doc, dict(stdout=p.stdout[-200:]), f"{what}: a partition task failed ({kind}) but the command reported success and wrote {marker}")
